@@ -98,6 +98,134 @@ example : compressTxOutAmount 1000000000 = 10 := by decide
 example : decompressTxOutAmount 111111101 = 12345678 := by decide
 example : decompressTxOutAmount (compressTxOutAmount (2 ^ 64 - 1)) = 2049638230412172324 := by decide
 
+/-! ### compressed scripts
+
+`C.YRecovery` is the explicit group hypothesis (a valid uncompressed key 04‖X‖Y is recovered by parsing
+(02|parity Y)‖X); `s.length < 2^63` is the Go run-time invariant for slice lengths. -/
+
+/-- `putCompressedScript` writes exactly the documented format (special forms 0–5 / VLQ(len+6)‖script). -/
+theorem script_format (C : Curve) (s : List UInt8) (h : s.length + 6 < 2 ^ 64) :
+    putCompressedScript C s = compressedScript C s := Lemmas.script_fmt C s h
+
+/-- `compressedScriptSize` equals the encoded length, for every script and every curve. -/
+theorem script_size_eq_length (C : Curve) (s : List UInt8) :
+    (putCompressedScript C s).length = compressedScriptSize C s := Lemmas.script_size C s
+
+/-- Every script (all six special forms with valid keys, P2PK forms with INVALID keys, everything else)
+decompresses to itself; the size decoder reports exactly the encoded length whatever follows. -/
+theorem script_roundtrip (C : Curve) (hC : C.YRecovery) (s : List UInt8) (hlen : s.length < 2 ^ 63)
+    (tail : List UInt8) :
+    decompressScript C (putCompressedScript C s) = some s ∧
+    decodeCompressedScriptSize (putCompressedScript C s ++ tail) = (putCompressedScript C s).length :=
+  have R := Lemmas.script_rt C hC s hlen
+  ⟨R.dec, R.sz tail⟩
+
+/-- The hypothesis is satisfiable (trivially by a curve with no valid uncompressed key; the
+correspondence check runs the real secp256k1 code on valid and invalid points). -/
+example : (⟨fun _ => none⟩ : Curve).YRecovery := by
+  intro k _ _ h; cases h
+
+/-! ### compressed txout, utxo entry, spent txout, spend journal
+
+Amounts come back as `rtAmount a = decompress (compress a)`, which is `a` for every `a ≤ amountBound`
+(`amount_roundtrip_partial`; F-C15-b beyond).  `Txo.WF`: height is an `int32` (negative ones included),
+script shorter than 2^63. -/
+
+theorem rtAmount_eq (a : Nat) (h : a ≤ amountBound) : rtAmount a = a := Lemmas.amount_roundtrip a h
+
+theorem txout_format (C : Curve) (a : Nat) (s : List UInt8) (ha : a ≤ amountBound) (h : s.length + 6 < 2 ^ 64) :
+    putCompressedTxOut C a s = compressedTxOut C a s := Lemmas.txout_fmt C a s ha h
+
+theorem txout_size_eq_length (C : Curve) (a : Nat) (s : List UInt8) :
+    (putCompressedTxOut C a s).length = compressedTxOutSize C a s := Lemmas.txout_size C a s
+
+theorem txout_roundtrip (C : Curve) (hC : C.YRecovery) (a : Nat) (s : List UInt8) (hlen : s.length < 2 ^ 63)
+    (tail : List UInt8) :
+    decodeCompressedTxOut C (putCompressedTxOut C a s ++ tail) =
+      .ok (rtAmount a, s, (putCompressedTxOut C a s).length) := Lemmas.txout_rt C hC a s hlen tail
+
+/-- header code = height<<1 | coinbase decodes back for every `int32` height and both flags. -/
+theorem headerCode_roundtrip (h : Int) (cb : Bool) (h1 : -(2 ^ 31 : Int) ≤ h) (h2 : h < 2 ^ 31) :
+    headerCodeOf h cb < 2 ^ 64 ∧ toInt32 (headerCodeOf h cb / 2) = h ∧ decide (headerCodeOf h cb % 2 = 1) = cb :=
+  Lemmas.header_decode h cb h1 h2
+
+/-- utxo entry bytes are `<VLQ header code><compressed txout>` as documented. -/
+theorem utxoEntry_format (C : Curve) (e : Txo) :
+    serializeUtxoEntry C e = vlq (headerCode (u64OfInt e.height) e.coinbase) ++ putCompressedTxOut C e.amount e.script := by
+  unfold serializeUtxoEntry headerCodeOf; rw [Lemmas.putVLQ_eq_spec]
+
+theorem utxoEntry_size_eq_length (C : Curve) (e : Txo) :
+    (serializeUtxoEntry C e).length = utxoEntrySerializeSize C e := Lemmas.utxo_size C e
+
+theorem utxoEntry_roundtrip (C : Curve) (hC : C.YRecovery) (e : Txo) (hw : e.WF) (tail : List UInt8) :
+    deserializeUtxoEntry C (serializeUtxoEntry C e ++ tail) = .ok e.rt := Lemmas.utxo_rt C hC e hw tail
+
+theorem stxo_size_eq_length (C : Curve) (t : Txo) :
+    (putSpentTxOut C t).length = spentTxOutSerializeSize C t := Lemmas.stxo_size C t
+
+/-- Spent txout incl. the legacy reserved byte (present iff height > 0) round-trips, with trailing data. -/
+theorem stxo_roundtrip (C : Curve) (hC : C.YRecovery) (t : Txo) (hw : t.WF) (tail : List UInt8) :
+    decodeSpentTxOut C (putSpentTxOut C t ++ tail) = .ok (t.rt, (putSpentTxOut C t).length) :=
+  Lemmas.stxo_rt C hC t hw tail
+
+theorem journal_size_eq_length (C : Curve) (l : List Txo) :
+    (serializeSpendJournalEntry C l).length = spendJournalSerializeSize C l := Lemmas.journal_size C l
+
+/-- Every list of spent outputs, serialised in reverse order, decodes back in order for EVERY
+transaction shape whose input counts sum to the number of stxos (the empty list included). -/
+theorem journal_roundtrip (C : Curve) (hC : C.YRecovery) (l : List Txo) (hw : ∀ t ∈ l, t.WF)
+    (shape : List Nat) (hs : shape.sum = l.length) :
+    deserializeSpendJournalEntry C (serializeSpendJournalEntry C l) shape = .ok (l.map Txo.rt) :=
+  Lemmas.journal_rt C hC l hw shape hs
+
+example : (⟨5000000000, [0x51], 2147483647, true⟩ : Txo).WF := by unfold Txo.WF; decide
+example : (⟨546, [], -2147483648, false⟩ : Txo).WF := by unfold Txo.WF; decide
+
+-- golden vectors from the format comments in chainio.go (decoding direction, any curve)
+def C0 : Curve := ⟨fun _ => none⟩
+/-- utxo example 2: blk 113931, 0.15 BTC, pay-to-pubkey-hash -/
+example : deserializeUtxoEntry C0 [0x8c,0xf3,0x16,0x80,0x09,0x00,0xb8,0x02,0x5b,0xe1,0xb3,0xef,0xc6,0x3b,0x0a,0xd4,0x8e,
+    0x7f,0x9f,0x10,0xe8,0x75,0x44,0x52,0x8d,0x58]
+  = .ok ⟨15000000, [0x76,0xa9,0x14,0xb8,0x02,0x5b,0xe1,0xb3,0xef,0xc6,0x3b,0x0a,0xd4,0x8e,0x7f,0x9f,0x10,0xe8,0x75,
+    0x44,0x52,0x8d,0x58,0x88,0xac], 113931, false⟩ := by decide
+/-- utxo example 3: blk 338156, 3.66875659 BTC, pay-to-script-hash -/
+example : deserializeUtxoEntry C0 [0xa8,0xa2,0x58,0x8b,0xa5,0xb9,0xe7,0x63,0x01,0x1d,0xd4,0x6a,0x00,0x65,0x72,0xd8,0x20,
+    0xe4,0x48,0xe1,0x2d,0x2b,0xbb,0x38,0x64,0x0b,0xc7,0x18,0xe6]
+  = .ok ⟨366875659, [0xa9,0x14,0x1d,0xd4,0x6a,0x00,0x65,0x72,0xd8,0x20,0xe4,0x48,0xe1,0x2d,0x2b,0xbb,0x38,0x64,0x0b,
+    0xc7,0x18,0xe6,0x87], 338156, false⟩ := by decide
+/-- spend journal example 2 (block 100025): two stxos, stored last-first -/
+example : deserializeSpendJournalEntry C0 [0x8b,0x99,0x70,0x00,0x91,0xf2,0x0f,0x00,0x6e,0xdb,0xc6,0xc4,0xd3,0x1b,0xae,0x9f,
+    0x1c,0xcc,0x38,0x53,0x8a,0x11,0x4b,0xf4,0x2d,0xe6,0x5e,0x86,0x8b,0x99,0x70,0x00,0x86,0xc6,0x47,0x00,0xb2,0xfb,0x57,
+    0xea,0xdf,0x61,0xe1,0x06,0xa1,0x00,0xa7,0x44,0x5a,0x8c,0x3f,0x67,0x89,0x88,0x41,0xec] [1, 1]
+  = .ok [⟨13761000000, [0x76,0xa9,0x14,0xb2,0xfb,0x57,0xea,0xdf,0x61,0xe1,0x06,0xa1,0x00,0xa7,0x44,0x5a,0x8c,0x3f,0x67,
+            0x89,0x88,0x41,0xec,0x88,0xac], 100024, false⟩,
+         ⟨34405000000, [0x76,0xa9,0x14,0x6e,0xdb,0xc6,0xc4,0xd3,0x1b,0xae,0x9f,0x1c,0xcc,0x38,0x53,0x8a,0x11,0x4b,0xf4,
+            0x2d,0xe6,0x5e,0x86,0x88,0xac], 100024, false⟩] := by decide
+
+/-! ### best chain state and block index row -/
+
+/-- `<hash 32><height u32 LE><total txns u64 LE><work sum length u32 LE><work sum big-endian>` round-trips. -/
+theorem bestState_roundtrip (st : BestState) (hw : st.WF) :
+    deserializeBestChainState (serializeBestChainState st) = .ok st := Lemmas.bestState_rt st hw
+
+theorem bestState_size_eq_length (st : BestState) (h : st.hash.length = 32) :
+    (serializeBestChainState st).length = 48 + (beBytes st.workSum).length := Lemmas.bestState_size st h
+
+/-- `big.Int.SetBytes (big.Int.Bytes n) = n` for the model of the work sum bytes. -/
+theorem workSum_bytes_roundtrip (n : Nat) : beVal (beBytes n) = n := Lemmas.beVal_beBytes n
+
+/-- `<80-byte header><status byte>` round-trips, trailing data ignored. -/
+theorem blockRow_roundtrip (h : Header) (st : UInt8) (hw : h.WF) (tail : List UInt8) :
+    deserializeBlockRow (serializeBlockRow h st ++ tail) = .ok (h, st) := Lemmas.blockRow_rt h st hw tail
+
+theorem blockRow_size_eq_length (h : Header) (st : UInt8) (hw : h.WF) : (serializeBlockRow h st).length = 81 :=
+  Lemmas.blockRow_size h st hw
+
+example : (⟨List.replicate 32 7, 800000, 900000000, 2 ^ 95⟩ : BestState).WF := by
+  unfold BestState.WF; decide
+example : (⟨0x20000000, List.replicate 32 0, List.replicate 32 1, 1700000000, 0x1d00ffff, 42⟩ : Header).WF := by
+  unfold Header.WF; decide
+
 /-! ### decoders never panic and never read out of bounds
 
 `slice` makes every Go slice expression of the decoders an explicit bounds check against the LENGTH of
